@@ -102,8 +102,24 @@ class _Subst(ast.NodeTransformer):
         return self._comp(n)
 
     def _comp(self, n: Any) -> ast.AST:
-        # names bound by the comprehension shadow locals: only substitute in the first iterable
+        # names bound by the comprehension shadow locals: they are left alone, every other local is substituted
+        bound = {x.id for g in n.generators for x in ast.walk(g.target) if isinstance(x, ast.Name)}
+        outer = self
+
+        class _Inner(_Subst):
+            def visit_Name(self, m: ast.Name) -> ast.AST:   # type: ignore[override]
+                if m.id in bound:
+                    return m
+                return outer.visit_Name(m)
+        inner = _Inner(self.sym, self.idx, self.depth)
         n.generators[0].iter = self.visit(n.generators[0].iter)
+        for gi, g in enumerate(n.generators):
+            if gi > 0:
+                g.iter = inner.visit(g.iter)
+            g.ifs = [inner.visit(c) for c in g.ifs]
+        for fld in ('elt', 'key', 'value'):
+            if hasattr(n, fld):
+                setattr(n, fld, inner.visit(getattr(n, fld)))
         return n
 
 
@@ -468,6 +484,67 @@ def fpaths(cfg: Any, **kw: Any) -> Iterator[Path]:
             yield p
 
 
+def _implied(e: ast.AST, pol: bool, out: Dict[str, bool]) -> None:
+    """record the fact `e is pol` and what it implies when e (after inlining a named boolean) is a not/and/or/bool() term:
+    (A and B) true => A, B true; (A or B) false => A, B false; not A => A with the other polarity"""
+    from .cfg import atom_key
+    if isinstance(e, ast.UnaryOp) and isinstance(e.op, ast.Not):
+        _implied(e.operand, not pol, out)
+        return
+    if isinstance(e, ast.Call) and isinstance(e.func, ast.Name) and e.func.id == 'bool' and len(e.args) == 1 and not e.keywords:
+        _implied(e.args[0], pol, out)
+        return
+    k, p2 = atom_key(e, pol)
+    out[k] = p2
+    if isinstance(e, ast.BoolOp):
+        if (isinstance(e.op, ast.And) and pol) or (isinstance(e.op, ast.Or) and not pol):
+            for v in e.values:
+                _implied(v, pol, out)
+        else:
+            out.setdefault('\0pending', []).append((e, pol))   # type: ignore[arg-type]
+
+
+def _unit_propagate(out: Dict[str, Any]) -> None:
+    """(A and B) false with A known true => B false; (A or B) true with A known false => B true"""
+    from .cfg import atom_key
+    pend = out.pop('\0pending', [])
+    changed = True
+    while changed and pend:
+        changed = False
+        for e, pol in list(pend):
+            want_known = isinstance(e.op, ast.And)      # And false: the others must be known True; Or true: the others known False
+            unknown = []
+            decided = False
+            for v in e.values:
+                probe: Dict[str, Any] = {}
+                _implied(v, True, probe)
+                probe.pop('\0pending', None)
+                # value of v under the facts: use its own atom key
+                kk, pp = atom_key(v if not (isinstance(v, ast.UnaryOp) and isinstance(v.op, ast.Not)) else v.operand, True)
+                val = out.get(kk)
+                if val is not None and isinstance(v, ast.UnaryOp) and isinstance(v.op, ast.Not):
+                    val = not val
+                if val is not None and pp is False:
+                    val = not val
+                if val is None:
+                    unknown.append(v)
+                elif val != want_known:
+                    decided = True     # And has a false conjunct / Or has a true disjunct: nothing to learn
+            if decided:
+                pend.remove((e, pol))
+                continue
+            if len(unknown) == 1:
+                tmp: Dict[str, Any] = {}
+                _implied(unknown[0], not want_known, tmp)
+                more = tmp.pop('\0pending', [])
+                for a, b in tmp.items():
+                    if a not in out:
+                        out[a] = b
+                        changed = True
+                pend.remove((e, pol))
+                pend.extend(more)
+
+
 def allfacts(path: Path, upto: Optional[int] = None) -> Dict[str, bool]:
     """{atom text: polarity} for the tests passed on the path (before step `upto`), under BOTH spellings: as written and
     with locals inlined (so `idle = self.f(); if idle > t` also yields the fact `self.f() > t`).  Later tests win."""
@@ -488,9 +565,9 @@ def allfacts(path: Path, upto: Optional[int] = None) -> Dict[str, bool]:
             k, pol = atom_key(n.ast, lab)  # type: ignore[arg-type]
             out[k] = pol
             try:
-                k2, pol2 = atom_key(sym.value(n.ast, idx), lab)  # type: ignore[arg-type]
-                out[k2] = pol2
+                _implied(sym.value(n.ast, idx), lab, out)  # type: ignore[arg-type]
             except Exception:
                 pass
+    _unit_propagate(out)
     cache[upto] = out
     return out
